@@ -8,6 +8,7 @@ CONSTANTS
   MaxStepFaults = 1000000
   Vs <- TVs
   WithRelease = TRUE
+  WithTrunc = TRUE
   MaxSess = 1000000
 CONSTRAINT Done
 CHECK_DEADLOCK FALSE
